@@ -83,6 +83,135 @@ def make_cases(rng, n_pol, n_tpl, n_set, depth):
     return cases, sets
 
 
+# ------------------------------------------------------------------ model correspondence
+def dump_sx(e):
+    """harness expression dump -> the S-expression form of Codec.d_expr / EstRun.e_expr"""
+    k = e[0]
+    name = lambda n: [Str(c) for c in n]  # noqa: E731
+    if k == "lit":
+        (pk, pv), = e[1].items()
+        if pk == "bool":
+            return [Sym("lit"), [Sym("bool"), Sym("true" if pv else "false")]]
+        if pk == "long":
+            return [Sym("lit"), [Sym("long"), int(pv)]]
+        if pk == "string":
+            return [Sym("lit"), [Sym("string"), Str(pv)]]
+        return [Sym("lit"), [Sym("entity"), [Sym("uid"), name(pv["type"]), Str(pv["id"])]]]
+    if k in ("var", "slot"):
+        return [Sym(k), Sym(e[1])]
+    if k == "unknown":
+        return [Sym("unknown"), Str(e[1]), Sym("none")]
+    if k == "if":
+        return [Sym("if"), dump_sx(e[1]), dump_sx(e[2]), dump_sx(e[3])]
+    if k in ("and", "or"):
+        return [Sym(k), dump_sx(e[1]), dump_sx(e[2])]
+    if k == "unop":
+        return [Sym("unop"), Sym(e[1]), dump_sx(e[2])]
+    if k == "binop":
+        return [Sym("binop"), Sym(e[1]), dump_sx(e[2]), dump_sx(e[3])]
+    if k == "ext":
+        return [Sym("ext"), name(e[1]), [dump_sx(a) for a in e[2]]]
+    if k in ("getattr", "hasattr"):
+        return [Sym(k), dump_sx(e[1]), Str(e[2])]
+    if k == "like":
+        return [Sym("like"), dump_sx(e[1]), [Sym("star") if c == "star" else int(c) for c in e[2]]]
+    if k == "is":
+        return [Sym("is"), dump_sx(e[1]), name(e[2])]
+    if k == "set":
+        return [Sym("set"), [dump_sx(a) for a in e[1]]]
+    if k == "record":
+        return [Sym("record"), [[Str(kk), dump_sx(v)] for kk, v in e[1]]]
+    raise ValueError(e)
+
+
+def sx_tree(s):
+    """model e_json output -> canonical python value (object keys sorted)"""
+    t = str(s[0])
+    if t == "null":
+        return None
+    if t == "bool":
+        return str(s[1]) == "true"
+    if t == "int":
+        return ("int", s[1])
+    if t == "str":
+        return "".join(chr(c) for c in s[1])
+    if t == "arr":
+        return [sx_tree(x) for x in s[1]]
+    return {"".join(chr(c) for c in kv[0]): sx_tree(kv[1]) for kv in s[1]}
+
+
+def canon_json(j):
+    if isinstance(j, bool) or j is None or isinstance(j, str):
+        return j
+    if isinstance(j, int):
+        return ("int", j)
+    if isinstance(j, list):
+        return [canon_json(x) for x in j]
+    return {k: canon_json(v) for k, v in j.items()}
+
+
+def correspondence(rep, rng, cases, harness, driver, stats, n_mut):
+    import sx as _sx
+    # (1) ast_to_est: Rust AST -> EST (conditions) vs model, on the Rust-parsed AST of every text case
+    tc = [c for c in cases if c["text"] is not None]
+    rres = fw.run_rust(harness, [{"cmd": "est_of_ast", "text": c["text"], "id": "p0"} for c in tc])
+    mc, keep = [], []
+    for c, r in zip(tc, rres):
+        if "ast" in r:
+            b = r["ast"]["body"]
+            mc.append([Sym("est_of_body"), Sym("none") if b is None else [Sym("some"), dump_sx(b)]])
+            keep.append((c, r))
+    mres = fw.run_model(driver, mc)
+    for (c, r), m in zip(keep, mres):
+        stats["corr_ast_to_est"] += 1
+        if isinstance(m, list) and sx_tree(m) == canon_json(r["json"]["conditions"]):
+            continue
+        stats["violations"] += 1
+        rep.violation({"property": PROP, "kind": "model ast_to_est_conditions differs from From<ast::Template> for est::Policy (conditions)",
+                       "model_function": "Est.ast_to_est_expr", "rust_entry": "est::Policy::from(ast::Template) / Expr::into_expr::<est::Builder>",
+                       "text": c["text"], "rust_json": r["json"]["conditions"], "model": _sx.dump(m),
+                       "theorem_whose_transfer_is_lost": "c06_est_expr"}, no_failing_input=True)
+    # (2) est_to_ast: valid and mutated JSON documents (mutations inside `conditions`)
+    docs = []
+    for c in cases:
+        t = G.tree(c["json"])
+        docs.append((t, "valid"))
+    pool = [d for d in docs if any(k == "conditions" and v[1] for k, v in d[0][1])]
+    for _ in range(n_mut):
+        t, _k = rng.choice(pool)
+        i = [k for k, _ in t[1]].index("conditions")
+        sub = t[1][i][1]
+        kinds = []
+        for _m in range(rng.choice([1, 1, 1, 2, 3])):
+            sub, kd = G.mutate(sub, rng)
+            kinds.append(kd)
+        items = list(t[1])
+        items[i] = ("conditions", sub)
+        docs.append((("obj", items), "+".join(kinds)))
+    rres = fw.run_rust(harness, [{"cmd": "from_json", "id": "p0", "json_str": G.tree_text(t)} for t, _ in docs])
+    mcmds = [[Sym("est_conditions"), G.tree_sx(dict(t[1])["conditions"])] for t, _ in docs]
+    mres = fw.run_model(driver, mcmds)
+    for (t, kd), r, m in zip(docs, rres, mres):
+        stats["corr_est_to_ast"] += 1
+        rust_acc = "accept" in r
+        for k in kd.split("+"):
+            h = stats["mutation_kinds"].setdefault(k, [0, 0])
+            h[0 if rust_acc else 1] += 1
+        if rust_acc:
+            b = r["accept"]["body"]
+            want = [Sym("ok"), Sym("none") if b is None else [Sym("some"), dump_sx(b)]]
+            ok = _sx.dump(m) == _sx.dump(want)
+        else:
+            ok = "reject" in r and isinstance(m, list) and str(m[0]) == "err"
+        if not ok:
+            stats["violations"] += 1
+            rep.violation({"property": PROP, "kind": "model est_to_ast_conditions differs from serde + try_into_ast_policy_or_template (%s)" % kd,
+                           "model_function": "Est.est_to_ast_conditions", "rust_entry": "serde_json::from_str::<est::Policy> + try_into_ast_policy_or_template",
+                           "json_str": G.tree_text(t), "rust": r, "model": _sx.dump(m)[:3000],
+                           "theorem_whose_transfer_is_lost": "c06_est_expr / c06_est_conditions"}, no_failing_input=True)
+    return mc[:20] + mcmds[:10] + mcmds[-10:]
+
+
 # ------------------------------------------------------------------ oracle
 TOLERATED_ERRORS = ("exceeds maximum encodable depth",)
 
@@ -211,6 +340,10 @@ def run(rep, tier, seed):
             check_print(rep, cmd, r, stats)
         else:
             check_rt(rep, kind, cmd, r, stats)
+    driver = fw.build_model_driver()
+    stats.update({"corr_ast_to_est": 0, "corr_est_to_ast": 0, "mutation_kinds": {}})
+    xc = correspondence(rep, rng, cases, harness, driver, stats, 1500 if quick else 30000)
+    nx = fw.coq_crosscheck(xc, fw.run_model(driver, xc), PROP)
     ops = {}
     for c in cases:
         for _, e in c["p"]["conds"]:
@@ -224,11 +357,14 @@ def run(rep, tier, seed):
         "trusted_base": fw.TRUSTED_BASE, "theorems": details,
         "evaluations": len(cmds), "distinct_nontrivial": distinct,
         "rule": "distinct by hash of the whole harness command; every command performs at least one full conversion there and back on a generated policy/template/set with >= 0 conditions",
-        "traces_validated_against_impl": sum(stats["round_trips"].values()),
+        "traces_validated_against_impl": sum(stats["round_trips"].values()) + stats["corr_ast_to_est"] + stats["corr_est_to_ast"],
         "round_trips": stats["round_trips"], "rejected_inputs": stats["rejected"], "tolerated_errors": stats["tolerated"],
         "rejected_samples": stats.get("rejected_samples", []),
         "print_ast_differs": stats["print_ast_differs"], "routes_json_differ": stats.get("routes_json_differ", 0),
         "set_rust_eq_false_order_sensitive": stats.get("set_rust_eq_false", 0),
+        "correspondence": {"ast_to_est_conditions": stats["corr_ast_to_est"], "est_to_ast_conditions": stats["corr_est_to_ast"],
+                           "mutation_kinds_[accepted,rejected]": stats["mutation_kinds"]},
+        "vm_compute_crosscheck_cases": nx,
         "operator_histogram": ops,
         "set_shapes": {str(k): sum(1 for s in sets if s["n"] == k) for k in sorted({s["n"] for s in sets})},
         "samples": [{k: v for k, v in c.items() if k not in ("entities", "requests")} for c in cmds[:2]],
